@@ -396,14 +396,15 @@ check("C20",
            "effects are out of scope.",
       technique="stateless exploration of all thread schedules up to a preemption bound (iterative context bounding) on the "
                 "implementation under a serialising scheduler; separate free-running ThreadSanitizer pass",
-      engine="sched", design="3/C20", deadline={"quick": 200, "thorough": 1500})
+      engine="sched", design="3/C20", deadline={"quick": 200, "thorough": 2400})
 
 # Start from a non-initial process state too (engine/prelude.hpp): every pass of every check is repeated, with the quick bounds
 # in both tiers, in a process in which a decoy Lexicon has already lived and died and a second one is still alive -- both having
-# run one broad construction / lookup / substitution / printing program that asks for the spellings the harnesses use.
-DECOY_RULE = (" DECOYS: every pass above is run again (quick bounds in both tiers) in a process where one decoy Lexicon ran a broad "
-              "construction/lookup/substitution/printing program and was destroyed, and a second one ran it and stays alive, before the "
-              "exploration starts; same oracle, so anything the library keeps outside a Lexicon is no longer in its initial state.")
+# run a fixed program restricted to the kinds of operation the property is about, asking for the spellings the harnesses use.
+DECOY_RULE = (" DECOYS: every pass above is run again (quick bounds in both tiers) in a process where one decoy Lexicon ran a fixed "
+              "program of the kinds of operation this property quantifies over (engine/prelude.hpp, sections_for) and was destroyed, and "
+              "a second one ran it and stays alive, before the exploration starts; same oracle, so anything the library keeps outside a "
+              "Lexicon is no longer in its initial state.")
 for _pid, _spec in CHECKS.items():
     _extra = []
     for _p in _spec["passes"]:
